@@ -185,11 +185,17 @@ func (m *Mutex) Unlock() {
 	}
 }
 
+// RWMutex: the bookkeeping lock is invisible to the race detector; what the detector gets to see is the relation of the
+// real sync.RWMutex - an Unlock happens before every later Lock and RLock, an RUnlock happens before every later Lock,
+// and readers are NOT ordered with one another (an earlier version ordered every operation on the lock with every other,
+// which hid writes made under a read lock).
 type RWMutex struct {
-	mu      sync.Mutex
+	mu      simrt.HMutex
 	writer  bool
 	readers int
 	waiters []chan struct{}
+	wrel    atomic.Int32 // stored by Unlock (release), loaded by Lock and RLock (acquire)
+	rrel    atomic.Int32 // added to by RUnlock (release, merging), loaded by Lock (acquire)
 }
 
 func (m *RWMutex) wakeAll() {
@@ -207,6 +213,8 @@ func (m *RWMutex) Lock() {
 		if !m.writer && m.readers == 0 {
 			m.writer = true
 			m.mu.Unlock()
+			m.wrel.Load()
+			m.rrel.Load()
 			return
 		}
 		w := make(chan struct{})
@@ -225,6 +233,7 @@ func (m *RWMutex) Unlock() {
 		panic("sync: Unlock of unlocked RWMutex")
 	}
 	m.writer = false
+	m.wrel.Store(1)
 	m.wakeAll()
 	m.mu.Unlock()
 }
@@ -236,6 +245,7 @@ func (m *RWMutex) RLock() {
 		if !m.writer {
 			m.readers++
 			m.mu.Unlock()
+			m.wrel.Load()
 			return
 		}
 		w := make(chan struct{})
@@ -254,6 +264,7 @@ func (m *RWMutex) RUnlock() {
 		panic("sync: RUnlock of unlocked RWMutex")
 	}
 	m.readers--
+	m.rrel.Add(1)
 	if m.readers == 0 {
 		m.wakeAll()
 	}
